@@ -21,131 +21,148 @@ inductive Look where
   | missing                -- well-formed so far, but the key / index does not exist
   | wrongKind              -- a key was asked of a non-object / an index of a non-array (itself well-formed)
   | malformed              -- the traversed text is not well-formed JSON
-  | fuel
   deriving Repr, DecidableEq, Inhabited
 
 /-- span of the value starting at its first byte `i` -/
 def valueSpan (buf : Buf) (i : Nat) : Look :=
   match value false (fuelFor buf) buf i with
   | .ok e => .found i e
-  | .err => .malformed
-  | .fuel => .fuel
+  | _ => .malformed
 
-mutual
-/-- look `path` up in the value whose first byte is at `i` -/
-def look : Nat → Buf → Nat → List Step → Look
-  | 0, _, _, _ => .fuel
-  | _+1, buf, i, [] => valueSpan buf i
-  | f+1, buf, i, .key k :: rest =>
-    if buf[i]? = some 123 then
-      let j := skipWs buf (i+1)
-      if buf[j]? = some 125 then .missing else lookMember f buf j k rest
-    else match value false (fuelFor buf) buf i with   -- not an object: wrong kind
-      | .ok _ => .wrongKind
-      | .err => .malformed
-      | .fuel => .fuel
-  | f+1, buf, i, .idx n :: rest =>
-    if buf[i]? = some 91 then
-      let j := skipWs buf (i+1)
-      if buf[j]? = some 93 then .missing else lookElem f buf j n rest
-    else match value false (fuelFor buf) buf i with
-      | .ok _ => .wrongKind
-      | .err => .malformed
-      | .fuel => .fuel
-/-- `i` at the opening quote of a member name -/
-def lookMember : Nat → Buf → Nat → List UInt8 → List Step → Look
-  | 0, _, _, _, _ => .fuel
-  | f+1, buf, i, k, rest =>
-    if buf[i]? = some 34 then
-      match stringS false buf (i+1) with
-      | none => .malformed
-      | some (name, e1) =>
-        let c := skipWs buf e1
-        if buf[c]? = some 58 then
-          let v := skipWs buf (c+1)
-          if name = k then look f buf v rest
-          else match value false (fuelFor buf) buf v with
-            | .ok e =>
-              let j := skipWs buf e
-              if buf[j]? = some 125 then .missing
-              else if buf[j]? = some 44 then lookMember f buf (skipWs buf (j+1)) k rest
-              else .malformed
-            | .err => .malformed
-            | .fuel => .fuel
-        else .malformed
-    else .malformed
-/-- `i` at the first byte of element number `n` counted from here -/
-def lookElem : Nat → Buf → Nat → Nat → List Step → Look
-  | 0, _, _, _, _ => .fuel
-  | f+1, buf, i, 0, rest => look f buf i rest
-  | f+1, buf, i, n+1, rest =>
+/-- where the searched member / element is -/
+inductive Find where
+  | at (v : Nat)     -- first byte of the value
+  | missing
+  | malformed
+  deriving Repr, DecidableEq, Inhabited
+
+/-- `i` at the opening quote of a member name: position of the value of the first member named
+    `k` (everything before it must be well-formed) -/
+def findMember (buf : Buf) (k : List UInt8) (i : Nat) : Find :=
+  if hq : buf[i]? = some 34 then
+    match stringS false buf (i+1) with
+    | none => .malformed
+    | some (name, e1) =>
+      let c := skipWs buf e1
+      if buf[c]? = some 58 then
+        let v := skipWs buf (c+1)
+        if name = k then .at v
+        else match value false (fuelFor buf) buf v with
+          | .ok e =>
+            let j := skipWs buf e
+            if buf[j]? = some 125 then .missing
+            else if buf[j]? = some 44 then
+              (if _hlt : i < skipWs buf (j+1) then findMember buf k (skipWs buf (j+1)) else .malformed)
+            else .malformed
+          | _ => .malformed
+      else .malformed
+  else .malformed
+termination_by buf.size - i
+decreasing_by
+  have := (Array.getElem?_eq_some_iff.mp hq).1
+  have h2 : i < skipWs buf (skipWs buf e + 1) := _hlt
+  omega
+
+/-- `i` at the first byte of an element: position of the element `n` places further -/
+def findElem (buf : Buf) : Nat → Nat → Find
+  | 0, i => .at i
+  | n+1, i =>
     match value false (fuelFor buf) buf i with
     | .ok e =>
       let j := skipWs buf e
       if buf[j]? = some 93 then .missing
-      else if buf[j]? = some 44 then lookElem f buf (skipWs buf (j+1)) n rest
+      else if buf[j]? = some 44 then
+        -- a comma must be followed by an element
+        (if skipWs buf (j+1) < buf.size then findElem buf n (skipWs buf (j+1)) else .malformed)
       else .malformed
-    | .err => .malformed
-    | .fuel => .fuel
-end
+    | _ => .malformed
 
-def lookFuel (buf : Buf) (path : List Step) : Nat := 2 * buf.size + 2 * path.length + 4
+/-- look `path` up in the value whose first byte is at `i` -/
+def look (buf : Buf) : Nat → List Step → Look
+  | i, [] => valueSpan buf i
+  | i, .key k :: rest =>
+    if buf[i]? = some 123 then
+      let j := skipWs buf (i+1)
+      if buf[j]? = some 125 then .missing
+      else match findMember buf k j with
+        | .at v => look buf v rest
+        | .missing => .missing
+        | .malformed => .malformed
+    else match value false (fuelFor buf) buf i with   -- not an object: wrong kind
+      | .ok _ => .wrongKind
+      | _ => .malformed
+  | i, .idx n :: rest =>
+    if buf[i]? = some 91 then
+      let j := skipWs buf (i+1)
+      if buf[j]? = some 93 then .missing
+      else match findElem buf n j with
+        | .at v => look buf v rest
+        | .missing => .missing
+        | .malformed => .malformed
+    else match value false (fuelFor buf) buf i with
+      | .ok _ => .wrongKind
+      | _ => .malformed
 
 /-- lookup in a whole text -/
 def lookup (buf : Buf) (path : List Step) : Look :=
-  look (lookFuel buf path) buf (skipWs buf 0) path
+  look buf (skipWs buf 0) path
 
 /-! ### member sequences (C12) -/
 
-/-- items of the array whose `[` is at `i`: spans of the leading well-formed elements, and how the
-    sequence ends: `true` = clean `]`, `false` = a violation after the listed items -/
-def arrayItems (fuel : Nat) (buf : Buf) (i : Nat) : List (Nat × Nat) × Bool :=
+/-- items of an array from the first byte `p` of an element on: spans of the leading well-formed
+    elements, and how the sequence ends: `true` = clean `]`, `false` = a violation after the
+    listed items -/
+def arrayGo (buf : Buf) (p : Nat) : List (Nat × Nat) × Bool :=
+  match value false (fuelFor buf) buf p with
+  | .ok e =>
+    if buf[skipWs buf e]? = some 93 then ([(p, e)], true)
+    else if buf[skipWs buf e]? = some 44 then
+      -- (the guard always holds: a value is non-empty; it only makes termination evident)
+      if _h : p < skipWs buf (skipWs buf e + 1) ∧ p < buf.size then
+        ((p, e) :: (arrayGo buf (skipWs buf (skipWs buf e + 1))).1, (arrayGo buf (skipWs buf (skipWs buf e + 1))).2)
+      else ([(p, e)], false)
+    else ([(p, e)], false)
+  | _ => ([], false)
+termination_by buf.size - p
+decreasing_by all_goals omega
+
+/-- items of the array whose `[` is at `i` -/
+def arrayItems (buf : Buf) (i : Nat) : List (Nat × Nat) × Bool :=
   if buf[i]? = some 91 then
     let j := skipWs buf (i+1)
-    if buf[j]? = some 93 then ([], true) else go fuel j
+    if buf[j]? = some 93 then ([], true) else arrayGo buf j
   else ([], false)
-where
-  go : Nat → Nat → List (Nat × Nat) × Bool
-  | 0, _ => ([], false)
-  | f+1, p =>
-    match value false (fuelFor buf) buf p with
-    | .ok e =>
-      let j := skipWs buf e
-      if buf[j]? = some 93 then ([(p, e)], true)
-      else if buf[j]? = some 44 then
-        let (l, ok) := go f (skipWs buf (j+1))
-        ((p, e) :: l, ok)
-      else ([(p, e)], false)
-    | _ => ([], false)
 
-/-- entries of the object whose `{` is at `i`: (decoded name, span of the value) -/
-def objectItems (fuel : Nat) (buf : Buf) (i : Nat) : List (List UInt8 × Nat × Nat) × Bool :=
+/-- entries of an object from the opening quote `p` of a member name on:
+    (decoded name, span of the value) -/
+def objectGo (buf : Buf) (p : Nat) : List (List UInt8 × Nat × Nat) × Bool :=
+  if buf[p]? = some 34 then
+    match stringS false buf (p+1) with
+    | none => ([], false)
+    | some (name, e1) =>
+      let c := skipWs buf e1
+      if buf[c]? = some 58 then
+        let v := skipWs buf (c+1)
+        match value false (fuelFor buf) buf v with
+        | .ok e =>
+          if buf[skipWs buf e]? = some 125 then ([(name, v, e)], true)
+          else if buf[skipWs buf e]? = some 44 then
+            if _h : p < skipWs buf (skipWs buf e + 1) ∧ p < buf.size then
+              ((name, v, e) :: (objectGo buf (skipWs buf (skipWs buf e + 1))).1, (objectGo buf (skipWs buf (skipWs buf e + 1))).2)
+            else ([(name, v, e)], false)
+          else ([(name, v, e)], false)
+        | _ => ([], false)
+      else ([], false)
+  else ([], false)
+termination_by buf.size - p
+decreasing_by all_goals omega
+
+/-- entries of the object whose `{` is at `i` -/
+def objectItems (buf : Buf) (i : Nat) : List (List UInt8 × Nat × Nat) × Bool :=
   if buf[i]? = some 123 then
     let j := skipWs buf (i+1)
-    if buf[j]? = some 125 then ([], true) else go fuel j
+    if buf[j]? = some 125 then ([], true) else objectGo buf j
   else ([], false)
-where
-  go : Nat → Nat → List (List UInt8 × Nat × Nat) × Bool
-  | 0, _ => ([], false)
-  | f+1, p =>
-    if buf[p]? = some 34 then
-      match stringS false buf (p+1) with
-      | none => ([], false)
-      | some (name, e1) =>
-        let c := skipWs buf e1
-        if buf[c]? = some 58 then
-          let v := skipWs buf (c+1)
-          match value false (fuelFor buf) buf v with
-          | .ok e =>
-            let j := skipWs buf e
-            if buf[j]? = some 125 then ([(name, v, e)], true)
-            else if buf[j]? = some 44 then
-              let (l, ok) := go f (skipWs buf (j+1))
-              ((name, v, e) :: l, ok)
-            else ([(name, v, e)], false)
-          | _ => ([], false)
-        else ([], false)
-    else ([], false)
 
 end Spec
 end Sonic
